@@ -430,6 +430,8 @@ func checkC02(c *Ctx, r *Report) {
 		r.Floor("F5", len(got), 13)
 	}
 
+	checkTemplateFuncs(c, r)
+	checkParsedComponents(c, r, pa)
 	checkDebExtras(c, r, pa)
 	checkArchTables(c, r)
 	checkVersionMust(c, r)
@@ -592,6 +594,7 @@ func checkRPMExtras(c *Ctx, r *Report, pk *Packager) {
 		})
 	}
 	r.Check(okGuard, "F5b", "rpm changelog tags only when a changelog is configured", c.pos(pk.Package.Pos()), "with an empty changelog setting the changelog tags must not be added")
+	checkRPMChangelogText(c, r, pk)
 	r.Check(tags[1080] && tags[1081] && tags[1082], "F5b", "rpm changelog tag numbers", c.pos(pk.Package.Pos()), fmt.Sprintf("custom tags written: %v; CHANGELOGTIME/NAME/TEXT are 1080/1081/1082", tags))
 }
 
@@ -1125,4 +1128,180 @@ func tableKeyValueRows(key, val ssa.Value) []kvRow {
 		out = append(out, kvRow{constOrEmpty(k), row[vfield]})
 	}
 	return out
+}
+
+// checkRPMChangelogText: the entry text stored under the changelog-text tag
+// is the rendered notes with surrounding blanks removed and nothing else: no
+// replacing, escaping or re-encoding call sits between the rendering buffer
+// and the slice handed to rpmpack.
+func checkRPMChangelogText(c *Ctx, r *Report, pk *Packager) {
+	allowed := map[string]bool{"strings.TrimSpace": true}
+	n := 0
+	for _, fn := range sortedFuncs(c, c.Reach(pk.Package)) {
+		forEachInstr(fn, func(in ssa.Instruction) {
+			call, ok := in.(*ssa.Call)
+			if !ok || !calleeIs(call, rpmpackPath, "RPM", "AddCustomTag") {
+				return
+			}
+			k, ok := call.Call.Args[1].(*ssa.Const)
+			if !ok || k.Value == nil || k.Int64() != 1082 {
+				return
+			}
+			// EntryStringSlice(<slice>)
+			var list ssa.Value
+			if ec, ok := call.Call.Args[2].(*ssa.Call); ok && len(ec.Call.Args) == 1 {
+				list = ec.Call.Args[0]
+			}
+			ms, _ := list.(*ssa.MakeSlice)
+			if ms == nil {
+				r.Fail("F5b-text", "rpm changelog text is the rendered notes", c.instrPos(call), "the list stored under tag 1082 is not a locally built slice: not decided")
+				return
+			}
+			for _, ref := range *ms.Referrers() {
+				ia, ok := ref.(*ssa.IndexAddr)
+				if !ok {
+					continue
+				}
+				for _, r2 := range *ia.Referrers() {
+					st, ok := r2.(*ssa.Store)
+					if !ok || st.Addr != ssa.Value(ia) {
+						continue
+					}
+					n++
+					v := st.Val
+					var bad string
+					for i := 0; i < 8 && bad == ""; i++ {
+						cv, ok := v.(*ssa.Call)
+						if !ok {
+							break
+						}
+						o := calleeObj(cv)
+						if o == nil {
+							bad = "a dynamic call"
+							break
+						}
+						if o.Name() == "String" && o.Type().(*types.Signature).Recv() != nil {
+							break // the rendering buffer
+						}
+						if !allowed[qualifiedName(o)] || len(cv.Call.Args) == 0 {
+							bad = funcObjName(o)
+							break
+						}
+						v = cv.Call.Args[0]
+					}
+					r.Check(bad == "", "F5b-text", fmt.Sprintf("rpm changelog text#%d is the rendered notes", n), c.instrPos(st),
+						"between the rendered notes and the changelog-text tag only strings.TrimSpace is expected; found "+bad+": the stored text would differ from the configured changelog")
+				}
+			}
+		})
+	}
+	r.Floor("F5b-text", n, 1)
+}
+
+// checkTemplateFuncs: the helper functions the control templates call get the
+// configuration's own lists as arguments; a helper that filters or rewrites
+// such a list in place changes what the next rendering (another format, a
+// second build) prints. Rule shared with C11 (W3-shared-slice).
+func checkTemplateFuncs(c *Ctx, r *Report) {
+	fm := funcMapFuncs(c)
+	tmp := newReport("tmp")
+	n := checkSharedSlicesIn(c, tmp, fm)
+	bad := 0
+	for _, o := range tmp.Obls {
+		if !o.OK {
+			o.Rule = "F3-funcs"
+			r.Obls = append(r.Obls, o)
+			bad++
+		}
+	}
+	if bad == 0 {
+		r.Pass("F3-funcs", fmt.Sprintf("%d template helper function(s) write through none of their list arguments", len(fm)), "-", fmt.Sprintf("%d element store(s)/append(s) examined", n))
+	}
+	if len(fm) < 3 {
+		r.Fail("instance-floor", "F3-funcs", "-", fmt.Sprintf("only %d template helper functions found (expected >= 3)", len(fm)))
+	}
+}
+
+// checkParsedComponents: a version component that a packager parses as an
+// integer (epoch, release) is written as parsed; no branch may depend on its
+// value - "epoch 0" or "release 0" is a configured value like any other, and
+// a test such as `epoch > 0` silently drops it (and whatever is formatted
+// together with it).
+func checkParsedComponents(c *Ctx, r *Report, pa *provAnalysis) {
+	n := 0
+	for _, pk := range c.Packagers {
+		if pk.Format == "" {
+			continue
+		}
+		reach := c.Reach(pk.Package, pk.FileName)
+		for _, fn := range sortedFuncs(c, reach) {
+			if c.funcPkgPath(fn) != pk.PkgPath {
+				continue
+			}
+			perFn := 0
+			forEachInstr(fn, func(in ssa.Instruction) {
+				call, ok := in.(*ssa.Call)
+				if !ok {
+					return
+				}
+				o := calleeObj(call)
+				if o == nil || o.Pkg() == nil || o.Pkg().Path() != "strconv" || !(strings.HasPrefix(o.Name(), "Parse") || o.Name() == "Atoi") || len(call.Call.Args) == 0 {
+					return
+				}
+				p := pa.Of(call.Call.Args[0])
+				comp := ""
+				for _, f := range []string{"Info.Epoch", "Info.Release"} {
+					if p.has(f) {
+						comp = f
+					}
+				}
+				if comp == "" {
+					return
+				}
+				n++
+				perFn++
+				// the numeric result and what is derived from it by conversion / phi
+				var val ssa.Value
+				for _, ref := range *call.Referrers() {
+					if ex, ok := ref.(*ssa.Extract); ok && ex.Index == 0 {
+						val = ex
+					}
+				}
+				var cmp ssa.Instruction
+				seen := map[ssa.Value]bool{}
+				var walk func(v ssa.Value, d int)
+				walk = func(v ssa.Value, d int) {
+					if v == nil || seen[v] || d > 6 || v.Referrers() == nil {
+						return
+					}
+					seen[v] = true
+					for _, ref := range *v.Referrers() {
+						switch x := ref.(type) {
+						case *ssa.Convert:
+							walk(x, d+1)
+						case *ssa.ChangeType:
+							walk(x, d+1)
+						case *ssa.Phi:
+							walk(x, d+1)
+						case *ssa.BinOp:
+							switch x.Op {
+							case token.EQL, token.NEQ, token.LSS, token.LEQ, token.GTR, token.GEQ:
+								if cmp == nil {
+									cmp = x
+								}
+							}
+						}
+					}
+				}
+				walk(val, 0)
+				construct := fmt.Sprintf("%s: parsed %s#%d in %s is used as parsed", pk.Format, strings.TrimPrefix(comp, "Info."), perFn, c.funcKey(fn))
+				if cmp != nil {
+					r.Fail("F6-parsed", construct, c.instrPos(call), fmt.Sprintf("the parsed value is compared at %s: a branch on the component's value can drop a configured component (and what is formatted with it) from the metadata", c.instrPos(cmp)))
+				} else {
+					r.Pass("F6-parsed", construct, c.instrPos(call), "no branch depends on the parsed value")
+				}
+			})
+		}
+	}
+	r.Floor("F6-parsed", n, 3)
 }
